@@ -45,6 +45,8 @@ pub struct Pass0Context {
     // flash size of the device in words, and how many instructions were placed so far
     pub flash_size: u32,
     pub instructions: std::cell::Cell<u64>,
+    // how many macro calls were expanded so far
+    pub expansions: std::cell::Cell<u64>,
 }
 
 impl Pass0Context {
@@ -93,6 +95,7 @@ pub fn build_pass_0(
         messages: Rc::new(RefCell::new(parsed.messages)),
         flash_size: crate::context::Context::get_device(common_context).flash_size,
         instructions: std::cell::Cell::new(0),
+        expansions: std::cell::Cell::new(0),
     };
 
     for segment in parsed.segments {
@@ -114,6 +117,11 @@ pub fn build_pass_0(
     Ok(context.as_pass0_result())
 }
 
+// macro calls expanded in one program
+const MAX_EXPANSIONS: u64 = 500_000;
+// longest line a macro body may grow to when its arguments are substituted
+const MAX_EXPANDED_LINE: usize = 4096;
+
 fn pass0_internal(
     segment: Segment,
     context: &Pass0Context,
@@ -130,6 +138,16 @@ fn pass0_internal(
                         bail!(
                             "macro {} is expanded recursively or nested too deeply on {}",
                             macro_name,
+                            line
+                        );
+                    }
+                    // calls that place nothing (empty or conditional-only bodies) never reach
+                    // the instruction budget below and need a bound of their own
+                    context.expansions.set(context.expansions.get() + 1);
+                    if context.expansions.get() > MAX_EXPANSIONS {
+                        bail!(
+                            "too many macro expansions (more than {}), {}",
+                            MAX_EXPANSIONS,
                             line
                         );
                     }
@@ -203,6 +221,14 @@ fn macro_expand(
                 let string_rep = ops.iter().map(|x| x.to_string());
                 for (num, replacer) in string_rep.enumerate() {
                     raw_line = raw_line.replace(&format!("@{}", num), replacer.as_str());
+                    if raw_line.len() > MAX_EXPANDED_LINE {
+                        bail!(
+                            "macro {} grows to a line of more than {} characters with its arguments on {}",
+                            macro_name,
+                            MAX_EXPANDED_LINE,
+                            line
+                        );
+                    }
                 }
                 processed.push((cp.clone(), raw_line));
             }
